@@ -1,6 +1,6 @@
 (** C19 -- translators preserve element coordinates and produce the canonical layout. *)
-From Coq Require Import List Arith Lia Bool.
-Require Import V.Base.ListAux V.Base.Radix V.Base.Matrix V.Base.NdArray V.Usid.AncBuild V.Usid.Reduce V.Usid.Translate V.Usid.TranslateProof.
+From Coq Require Import List Arith Lia Bool ZArith.
+Require Import V.Base.ListAux V.Base.Radix V.Base.Matrix V.Base.NdArray V.Usid.AncBuild V.Usid.Reduce V.Usid.Translate V.Usid.TranslateProof V.Usid.TranslateNorm V.Usid.TranslateNormProof.
 Import ListNotations.
 
 (** Image: pixel (row y, column x) of a U x V image is element x * U + y of the written column ... *)
@@ -21,6 +21,42 @@ Theorem C19_image_pixel_coordinates :
   length wi = u * v /\ length (nth n wi []) = 2.
 Proof. exact image_position_rows. Qed.
 Print Assumptions C19_image_pixel_coordinates.
+
+(** normalize=True.  The written value of pixel (y, x) stands at the place every image stores that pixel (x * U + y, whose
+    position row carries X = x, Y = y by the theorem above) and is the exact rational (pixel - min) / (max - min) ... *)
+Theorem C19_normalized_pixel :
+  forall (img : list (list nat)) v y x d, rect img v -> y < length img -> x < v ->
+  let flat := concat img in let mn := lmin flat in let span := lmax (map (fun p => p - mn) flat) in
+  nth (x * length img + y) (image_rows_normalized img) d = (nth x (nth y img []) 0 - mn, span).
+Proof. exact normalized_pixel. Qed.
+Print Assumptions C19_normalized_pixel.
+
+(** ... which lies in [0, 1], is 0 for a darkest and 1 for a brightest pixel, and keeps the order of the pixel values. *)
+Theorem C19_normalized_in_unit_interval :
+  forall (img : list (list nat)) row px, In row (normalize img) -> In px row -> fst px <= snd px.
+Proof. exact normalized_in_unit_interval. Qed.
+Print Assumptions C19_normalized_in_unit_interval.
+
+Theorem C19_normalized_extremes :
+  forall img : list (list nat), concat img <> [] ->
+  let flat := concat img in let mn := lmin flat in let span := lmax (map (fun p => p - mn) flat) in
+  (exists x, In x flat /\ norm_px mn span x = (0, span)) /\ (exists x, In x flat /\ norm_px mn span x = (span, span)).
+Proof. exact normalized_extremes. Qed.
+Print Assumptions C19_normalized_extremes.
+
+Theorem C19_normalized_monotone :
+  forall mn span a b, a <= b ->
+  fst (norm_px mn span a) <= fst (norm_px mn span b) /\ snd (norm_px mn span a) = snd (norm_px mn span b).
+Proof. exact normalized_monotone. Qed.
+Print Assumptions C19_normalized_monotone.
+
+(** non-vacuity: a 2 x 3 image with values 10 .. 60: min 10, span 50; written column-wise; 0.2 is close to 10/50, 0.25 is not;
+    a constant image is 0 / 0, matched only by NaN (denominator 0) *)
+Example C19_example_normalized :
+  image_rows_normalized [[10; 30; 50]; [20; 40; 60]] = [(0, 50); (10, 50); (20, 50); (30, 50); (40, 50); (50, 50)]
+  /\ norm_close (10, 50) (3602879701896397, 18014398509481984)%Z = true /\ norm_close (10, 50) (1, 4)%Z = false
+  /\ image_rows_normalized [[7; 7]] = [(0, 0); (0, 0)] /\ norm_close (0, 0) (0, 0)%Z = true /\ norm_close (0, 0) (0, 1)%Z = false.
+Proof. vm_compute. repeat split; reflexivity. Qed.
 
 (** Labelled N-D dataset, ANY number of axes, ANY sizes, ANY typing and order of the axes: the element with full index idx
     is stored at (row, column) = (C-order offset of its spatial coordinates, of its spectral coordinates), and the digits
